@@ -540,10 +540,23 @@ func checkArming(p *Prog, r *Report, rule string) {
 			}
 			return false
 		}
+		// the transmission: the encoding of this segment (what happens between the decision and the test of the
+		// decision flag, or between that test and the encoding, is equally "before the segment goes out")
 		isSendTest := func(nd ast.Node, _ Point) bool {
-			id, ok := nd.(*ast.Ident)
-			return ok && p.Info.Uses[id] == nv
+			hit := false
+			inspectShallow(nd, func(x ast.Node) bool {
+				if call, ok := x.(*ast.CallExpr); ok && p.Callee(call) == p.Method("segment", "encode") {
+					if sel, ok := ast.Unparen(call.Fun).(*ast.SelectorExpr); ok {
+						if t := p.Term(sel.X); t.Op == "var" && t.Obj == types.Object(lv) {
+							hit = true
+						}
+					}
+				}
+				return true
+			})
+			return hit
 		}
+		_ = nv
 		start := Point{pt.B, pt.I + 1}
 		noRto := c.FindPath(PathQuery{From: start, IsTarget: isSendTest, IsBarrier: isRtoStore})
 		// from the decision, reach the test without a resendts store that follows an rto store:
